@@ -204,6 +204,28 @@ impl TypeCheckRep {
     // Any-typed check be skipped).
     pub fn is_unconstrained(&self) -> bool { self.pred.is_none() }
 
+    // splits a check with a predicate or an indirect requirement
+    // into an Any-typed check carrying those two, and the bare check
+    // of the type alone.
+    pub fn split_disjunct(&self) -> (Rc<TypeCheck>, Rc<TypeCheck>) {
+        let guard = Rc::new(Self {
+            name:     String::from(&self.name),
+            typ:      Rc::new(PDFType::Any),
+            pred:     self.pred.as_ref().cloned(),
+            indirect: self.indirect,
+        });
+        let bare = Rc::new(Self {
+            name:     String::from(&self.name),
+            typ:      Rc::clone(&self.typ),
+            pred:     None,
+            indirect: IndirectSpec::Allowed,
+        });
+        (
+            Rc::new(TypeCheck::Rep(guard)),
+            Rc::new(TypeCheck::Rep(bare)),
+        )
+    }
+
     // make an indirect-allowed version of the check.
     pub fn allow_indirect(&self) -> Rc<Self> {
         Rc::new(Self {
@@ -498,6 +520,19 @@ impl State {
                                         // No options to try: this is a
                                         // check specification error.
                                         unreachable!()
+                                    } else if chk.pred().is_some()
+                                        || chk.indirect() != IndirectSpec::Allowed
+                                    {
+                                        // The predicate and the indirect
+                                        // requirement of the disjunct
+                                        // itself apply whichever option
+                                        // matches: check them first, as
+                                        // an Any-typed check carrying
+                                        // them, and leave the bare
+                                        // disjunct pending.
+                                        let (guard, bare) = chk.split_disjunct();
+                                        pending.push_front((Rc::clone(&obj), bare));
+                                        return Ok(Some((obj, guard)))
                                     } else {
                                         // Take the first option, and mark
                                         // this disjunct in progress.
@@ -655,12 +690,20 @@ pub(super) fn normalize_check(typ: &Rc<TypeCheckRep>) -> Rc<TypeCheckRep> {
                 match o.as_ref() {
                     TypeCheck::Rep(r) => {
                         let flat = normalize_check(r);
-                        if let PDFType::Disjunct(nested) = flat.typ() {
-                            for n in nested {
-                                v.push(Rc::clone(n))
-                            }
-                        } else {
-                            v.push(Rc::new(TypeCheck::Rep(flat)))
+                        // A nested disjunct can be merged only if it
+                        // has no predicate or indirect requirement of
+                        // its own: those do not apply to the other
+                        // options.
+                        match flat.typ() {
+                            PDFType::Disjunct(nested)
+                                if flat.pred().is_none()
+                                    && flat.indirect() == IndirectSpec::Allowed =>
+                            {
+                                for n in nested {
+                                    v.push(Rc::clone(n))
+                                }
+                            },
+                            _ => v.push(Rc::new(TypeCheck::Rep(flat))),
                         }
                     },
                     TypeCheck::Named(_) => v.push(Rc::clone(o)),
